@@ -39,6 +39,34 @@ pub fn for_all_strings(alpha: &[char], max: usize, f: &(dyn Fn(&str) + Sync)) ->
     total
 }
 
+/// all concatenations of 0..=max tokens from `tokens`, handed to `f` in parallel (token-level words:
+/// protocol words such as "$share" or "$SYS" used as share names, levels and prefixes of themselves)
+pub fn for_all_token_strings(tokens: &[&str], max: usize, f: &(dyn Fn(&str) + Sync)) -> u64 {
+    let k = tokens.len() as u64;
+    let mut total = 0u64;
+    for len in 0..=max {
+        let n = k.pow(len as u32);
+        total += n;
+        let chunk = 4096u64;
+        let chunks: Vec<u64> = (0..n).step_by(chunk as usize).collect();
+        chunks.par_iter().for_each(|start| {
+            let mut s = String::with_capacity(len * 8);
+            for idx in *start..(*start + chunk).min(n) {
+                s.clear();
+                let mut x = idx;
+                for _ in 0..len {
+                    s.push_str(tokens[(x % k) as usize]);
+                    x /= k;
+                }
+                f(&s);
+            }
+        });
+    }
+    total
+}
+
+pub const FILTER_TOKENS: [&str; 13] = ["$share", "$share/", "/", "a", "+", "#", "$", "$SYS", "é", "g/", " ", "$shar", "share"];
+
 fn shape(s: &str) -> String {
     if s.len() <= 40 {
         format!("{:?}", s)
@@ -207,7 +235,7 @@ pub fn c16(ctx: &Ctx) {
     let sigma = ['/', '+', '#', '$', 'a', '\0', 'é'];
     let (n_plain, n_pref, n_mut) = if ctx.thorough() { (9, 7, 5) } else { (8, 6, 4) };
     ctx.set_rule(&format!(
-        "all strings of length <= {n_plain} over {{'/','+','#','$','a',NUL,'é'}} alone, of length <= {n_pref} behind {} '$share' prefix shapes and of length <= {n_mut} behind every single-letter mutation of '$share/'; padded long strings around 65,535 bytes; each through is_invalid, try_from and SUBSCRIBE/UNSUBSCRIBE of both families; oracle = split-based predicate of mqtt-ref::text; non-trivial = strings the specification accepts",
+        "all strings of length <= {n_plain} over {{'/','+','#','$','a',NUL,'é'}} alone, of length <= {n_pref} behind {} '$share' prefix shapes and of length <= {n_mut} behind every single-letter mutation of '$share/'; all concatenations of <= 5 (thorough 6) tokens from $share, $share/, /, a, +, #, $, $SYS, é, g/, space, $shar, share; padded long strings around 65,535 bytes; each through is_invalid, try_from and SUBSCRIBE/UNSUBSCRIBE of both families; oracle = split-based predicate of mqtt-ref::text; non-trivial = strings the specification accepts",
         C16_PREFIXES.len()
     ));
     let accepted = AtomicU64::new(0);
@@ -230,6 +258,8 @@ pub fn c16(ctx: &Ctx) {
     let n_x = if ctx.thorough() { 5 } else { 4 };
     total += for_all_strings(&sigma_x, n_x, &|s| check(s, true));
     total += for_all_strings(&sigma_x, n_x - 1, &|s| check(&format!("$share/{s}"), true));
+    let n_tok = if ctx.thorough() { 6 } else { 5 };
+    total += for_all_token_strings(&FILTER_TOKENS, n_tok, &|s| check(s, true));
     let muts = mutated_share_prefixes();
     for p in &muts {
         total += for_all_strings(&sigma, n_mut, &|s| check(&format!("{p}{s}"), true));
@@ -390,7 +420,8 @@ pub fn c17(ctx: &Ctx) {
     let sigma = ['/', '+', '#', 'a', 'é', '€', '😀'];
     let (n_plain, n_share) = if ctx.thorough() { (8, 7) } else { (7, 6) };
     ctx.set_rule(&format!(
-        "every valid filter among all strings of length <= {n_plain} over {{'/','+','#','a','é','€','😀'}} alone and of length <= {n_share} behind '$share/', plus share names and filters of boundary lengths (247..=257, 65,520..): accessors against the unique split of the text, text round trip, equality/order/hash of independently built equal texts; all ordered pairs of a filter subset for ==, cmp, partial_cmp, hash; non-trivial = shared filters"
+        "every valid filter among all strings of length <= {n_plain} over {{'/','+','#','a','é','€','😀'}} alone and of length <= {n_share} behind '$share/', plus all concatenations of <= {n_tok} tokens from {:?} (protocol words as share names and levels), plus share names and filters of boundary lengths (247..=257, 65,520..): accessors against the unique split of the text, text round trip, equality/order/hash of independently built equal texts; all ordered pairs of a filter subset for ==, cmp, partial_cmp, hash; non-trivial = shared filters",
+        FILTER_TOKENS, n_tok = if ctx.thorough() { 6 } else { 5 }
     ));
     let shared = AtomicU64::new(0);
     let valid = AtomicU64::new(0);
@@ -412,6 +443,9 @@ pub fn c17(ctx: &Ctx) {
     total += for_all_strings(&sigma, n_share, &|s| check(&format!("$share/{s}")));
     total += for_all_strings(&sigma, n_share - 1, &|s| check(&format!("$share/g/{s}")));
     total += for_all_strings(&sigma, n_share - 2, &|s| check(&format!("$share/😀é/{s}")));
+    // token-level words: "$share" / "$SYS" as share name, as a level, repeated, truncated
+    let n_tok = if ctx.thorough() { 6 } else { 5 };
+    total += for_all_token_strings(&FILTER_TOKENS, n_tok, &|s| check(s));
     // boundary lengths of the share name and of the whole filter
     let mut long: Vec<String> = Vec::new();
     for n in (120..=135).chain(247..=262).chain([510, 511, 512, 513, 1023, 1024, 1025, 4095, 4096, 16383, 16384, 32767, 32768, 65520, 65524, 65525, 65526]) {
@@ -626,7 +660,7 @@ pub fn c18(ctx: &Ctx) {
     let (n_plain, n_pref) = if ctx.thorough() { (8, 6) } else { (7, 5) };
     let prefixes = ["$share/", "$share", "$SYS/", "$SYS", "$sys/", "$Share/", "$SYS//", "$shar", "$SY"];
     ctx.set_rule(&format!(
-        "all strings of length <= {n_plain} over {{'/','+','#','$','a','S',NUL,'é'}} alone and of length <= {n_pref} behind {:?}; padded long strings around 65,535 bytes; through is_invalid, try_from, PUBLISH topic, will topic and response-topic properties of both families; oracle: valid iff <= 65,535 bytes and no '+', '#', NUL; non-trivial = valid names",
+        "all strings of length <= {n_plain} over {{'/','+','#','$','a','S',NUL,'é'}} alone and of length <= {n_pref} behind {:?}; all concatenations of <= 5 (thorough 6) tokens from $share, $share/, /, a, $, $SYS, $SYS/, é, +, #, space, $SY, sys; padded long strings around 65,535 bytes; through is_invalid, try_from, PUBLISH topic, will topic and response-topic properties of both families; oracle: valid iff <= 65,535 bytes and no '+', '#', NUL; non-trivial = valid names",
         prefixes
     ));
     let accepted = AtomicU64::new(0);
@@ -649,6 +683,8 @@ pub fn c18(ctx: &Ctx) {
     for p in ["$SYS", "$share", "$SY", "$shar", "aaaa", "aaaaaa"] {
         total += for_all_strings(&sigma_x, 2, &|s| check(&format!("{p}{s}"), true));
     }
+    let n_tok = if ctx.thorough() { 6 } else { 5 };
+    total += for_all_token_strings(&["$share", "$share/", "/", "a", "$", "$SYS", "$SYS/", "é", "+", "#", " ", "$SY", "sys"], n_tok, &|s| check(s, true));
     let mut cores = Vec::new();
     for_all_strings_seq(&sigma, 2, &mut |s| cores.push(s.to_string()));
     cores.push("$SYS/".into());
